@@ -16,7 +16,9 @@ import J5V.Codec.Decode
   no anonymous proto oneof in objects.
 * `Env.flat` ⊇ `Env.simple` — the class the structure-level round trip is proved for:
   additionally **anonymous proto oneofs** in objects (`group`), **exposed oneofs** (empty path)
-  and **flattened objects** (proto paths of any positive length, prefix-free). Still excluded: `Any`, an exposed oneof inlined from a flattened object
+  and **flattened objects** (proto paths of any positive length, prefix-free), and **j5 `Any`**
+  properties (`.any false`; not as array / map items, which the codec does not support). Still
+  excluded: `google.protobuf.Any` (`.any true`), an exposed oneof inlined from a flattened object
   (its path is a prefix of its siblings' paths).
 -/
 namespace J5V.Codec
@@ -30,7 +32,7 @@ def fieldSimple : Field → Bool
   | .scalar _ | .enum _ | .object _ | .oneof _ => true
   | .array i => itemSimple i
   | .map i => itemSimple i
-  | .any _ => false
+  | .any pb => !pb
 
 def propSimple (p : PropDef) : Bool := p.path.length == 1 && fieldSimple p.field
 
@@ -180,6 +182,18 @@ def valOk (env : Env) (O : Oracle) : Field → PVal → Bool
       | some (.enum _ opts) => (optionByNumber opts n).isSome
       | _ => false
     | _ => false
+  | fld, .anyJ5 tn proto j5 ik iroot inner =>
+    -- a j5 `Any` that carries `j5_json` only: the stored bytes are the compact rendering of a
+    -- complete JSON value of nesting depth ≤ 10000 (what `json.Compact` / the codec itself
+    -- writes), recognised by the specification-side `O.chunk`; only in an environment that has
+    -- `Any` fields at all
+    match fld, proto, ik, iroot, inner with
+    | .any false, [], .none, "", .msg [] =>
+      !env.noAny && isValidUtf8 tn && !j5.isEmpty &&
+        (match O.chunk j5 with
+         | some V => V.render == j5 && V.complete && decide (V.depth ≤ 10000)
+         | none => false)
+    | _, _, _, _, _ => false
   | fld, v =>
     match fld with
     | .scalar k => scalarOk O k v
@@ -203,6 +217,35 @@ def mapOk (env : Env) (O : Oracle) (item : Field) (seen : List Bytes) : List (By
   | [] => true
   | (k, v) :: rest =>
     !seen.contains k && isValidUtf8 k && valOk env O item v && mapOk env O item (k :: seen) rest
+end
+
+/-! ## the `j5_json` chunks stored in a message (C08's quantifier for `Any`) -/
+
+/-- the specification-side oracle recognises the chunk *as these very bytes* -/
+def chunkKnown (O : Oracle) (bs : Bytes) : Bool :=
+  match O.chunk bs with
+  | some V => V.render == bs
+  | none => false
+
+mutual
+/-- every `j5_json` stored anywhere in the value (at any depth, also inside the proto content of
+an `Any`) is a recognised chunk; no schema involved, no other condition on the value -/
+def PVal.chunksOk (O : Oracle) : PVal → Bool
+  | .anyJ5 _ _ j5 _ _ inner => (j5.isEmpty || chunkKnown O j5) && inner.chunksOk O
+  | .anyPb _ _ _ _ inner => inner.chunksOk O
+  | .msg fs => chunksOkFields O fs
+  | .list xs => chunksOkList O xs
+  | .map kvs => chunksOkMap O kvs
+  | _ => true
+def chunksOkFields (O : Oracle) : List (Nat × PVal) → Bool
+  | [] => true
+  | (_, v) :: rest => v.chunksOk O && chunksOkFields O rest
+def chunksOkList (O : Oracle) : List PVal → Bool
+  | [] => true
+  | v :: rest => v.chunksOk O && chunksOkList O rest
+def chunksOkMap (O : Oracle) : List (Bytes × PVal) → Bool
+  | [] => true
+  | (_, v) :: rest => v.chunksOk O && chunksOkMap O rest
 end
 
 end J5V.Codec
